@@ -272,8 +272,23 @@ pub fn gen_world(seed: u64, run: u64, prof: &Profile) -> WorldGen {
         let a = pick_role(&mut r, &accounts, 1, 2);
         (e, a, r.pick(&accounts).clone(), r.pick(&accounts).clone())
     } else {
-        let e = vec![accounts[nacc - 1].clone()];
-        let a = vec![accounts[nacc - 2].clone()];
+        // distinct accounts per role; sometimes two or three holders of a role
+        let ne = 1 + r.pick_weighted(&[6, 3, 1]);
+        let na = 1 + r.pick_weighted(&[6, 3, 1]);
+        let mut e: Vec<String> = vec![];
+        let mut a: Vec<String> = vec![];
+        for i in 0..ne.min(nacc - 1) {
+            e.push(accounts[nacc - 1 - i].clone());
+        }
+        for i in 0..na {
+            let idx = (nacc as i64 - 1 - ne as i64 - i as i64).max(0) as usize;
+            if !e.contains(&accounts[idx]) && !a.contains(&accounts[idx]) {
+                a.push(accounts[idx].clone());
+            }
+        }
+        if a.is_empty() {
+            a.push(accounts[0].clone());
+        }
         (e, a, "fee_ask_acct".to_string(), "fee_bid_acct".to_string())
     };
     let nconv = if r.chance(prof.p_convertible.max(0.15)) { r.range(1, 2) as usize } else { 0 };
@@ -307,6 +322,12 @@ pub fn gen_world(seed: u64, run: u64, prof: &Profile) -> WorldGen {
         }
     }
     let pick_rate = |r: &mut Rng| -> String {
+        if r.chance(0.25) {
+            // arbitrary rate with 1-6 decimals
+            let d = r.range(1, 6) as u32;
+            let m = r.below(10u64.pow(d) / 2 + 1) as u128;
+            return Px { units: m, d }.render();
+        }
         if r.chance(0.06) {
             r.pick(&RATES_EDGE).to_string()
         } else if r.chance(prof.p_tie_rates) {
@@ -823,6 +844,9 @@ fn gen_migrate(sim: &Sim, r: &mut Rng, prof: &Profile) -> Step {
     ];
     let set_version = if r.chance(0.12) {
         None
+    } else if r.chance(0.35) {
+        // arbitrary triple around the thresholds
+        Some(format!("{}.{}.{}", r.pick_weighted(&[8, 2, 1]), r.range(13, 21), r.range(0, 6)))
     } else if r.chance(0.55) {
         Some(r.pick(&versions[2..9]).to_string())
     } else {
